@@ -1712,6 +1712,10 @@ class Path:
                 r = self.ex.call_opaque(self, info, args)
                 if r is not None:
                     return r
+        if not kwargs and info.node.decorator_list and not self.in_global \
+                and any(isinstance(d, ast.Name) and d.id == 'opaque' for d in info.node.decorator_list) \
+                and not getattr(self, '_in_opaque', False):
+            return self._call_opaque(f, info, args)
         self.depth += 1
         if self.depth > self.ex.max_depth:
             raise Unsupported(f'call depth exceeded at {info.qualname}')
@@ -1728,6 +1732,27 @@ class Path:
             return None
         finally:
             self.depth -= 1
+
+    def _call_opaque(self, f, info, args):
+        """
+        Spec function decorated with @opaque (speclib; natively the identity decorator), scalar arguments:
+        the value is the application F(args) of a function symbol named after the spec function, together with the
+        definitional fact F(args) == <body evaluated on args>.  Nothing is assumed beyond the definition; two
+        applications on provably equal arguments are equal by congruence without unfolding the body.
+        """
+        self._in_opaque = True
+        try:
+            v = self.call_function(f, args[1:] if f.self_obj is not None else args, {})
+        finally:
+            self._in_opaque = False
+        scal = lambda a: (is_boollike(a) or is_intlike(a)) and not isinstance(a, (EnumV, SObj))
+        if not args or not all(scal(a) for a in args) or not any(is_z3(a) for a in args) or not is_z3(v):
+            return v
+        zs = [as_z3bool(a) if is_boollike(a) else as_z3int(a) for a in args]
+        F = z3.Function('opq_' + info.name, *([z.sort() for z in zs] + [v.sort()]))
+        app = F(*zs)
+        self.assume(app == v, fact=True)
+        return app
 
     # ------------------------------------------------------------ statements
     def exec_block(self, body, fr):
